@@ -148,6 +148,32 @@ CHECKS = {
              "to what ast.unparse of those trees produces; ast.parse (C) outside.",
         design="3/C20",
     ),
+    "C12": dict(
+        text="Crash-free delivery schedules (symbolic choices) with event sourcing on: EventReplayer.rebuild_workflow_state versus the store "
+             "after quiescence; rebuild as of every prefix length q of the event log (q symbolic) against folding exactly the events with "
+             "sequence <= q; snapshot at every position p (symbolic) plus tail against the full replay; a cancel injected before every step.",
+        note="Bounds: workloads of the fixed family, 2-4 choice points, logs of <=60 events; entities force-marked by a jump are excluded as "
+             "the property says. The solver contributes the exhaustive choice of schedule / q / p; each path is a concrete run.",
+        design="3/C12",
+    ),
+    "C13": dict(
+        text="Crash at every durable commit (symbolic index) with the event store in the same database: on the crash state itself and after "
+             "recovery, no completion event without a durable completion, no completion by the regular task/stage completion step without "
+             "its event, subscriber notifications only for durable events, sequences unique and increasing; exception / optimistic-lock "
+             "conflict injected inside the transaction of the handler at every delivery step (symbolic).",
+        note="Bounds: workloads of the fixed family; events recorded outside a transaction by design (started, skipped, canceled, workflow "
+             "events) are observed but not asserted. Stubs as C01.",
+        design="3/C13",
+    ),
+    "C19": dict(
+        text="store/retrieve/retrieve_stage and both message serialisers + poll_one executed symbolically over SymDB with a value-carrying "
+             "json stub: integer and boolean fields and the leaves of context/outputs/payload are symbolic (unbounded), every enum member "
+             "and every class of MESSAGE_TYPES is covered, strings are chosen from a small set including non-ASCII and a 300-char value; "
+             "the two serialisers' payloads are compared.",
+        note="CPython's json itself (unicode escaping, floats, huge values) is outside: the claim is that the code passes values to json "
+             "untouched and returns what json gives. SymDB instead of SQLite (validated differentially).",
+        design="3/C19",
+    ),
 }
 
 NOT_YET = "check not built yet in this round (work in progress); see DESIGN.md section 3 for the planned obligations"
